@@ -559,6 +559,7 @@ func Hex(b []byte) string { return fmt.Sprintf("%x", b) }
 type TraceResult struct {
 	Lines    int
 	Rejected [][]any // parsed REJECT tuples (first element after the tag is the 1-based line)
+	Tagged   map[string][][]any // every other printed tuple <<"TAG", ...>> by tag
 	TLC      *TLCResult
 }
 
@@ -578,7 +579,7 @@ func (c *Ctx) ValidateTrace(module string, lines [][]byte, extra TLCOpts) *Trace
 	}
 	o.Files["trace.ndjson"] = buf.Bytes()
 	o.Workers = 1
-	tr := &TraceResult{Lines: len(lines)}
+	tr := &TraceResult{Lines: len(lines), Tagged: map[string][][]any{}}
 	done := -1
 	o.OnLine = func(line string) {
 		if !strings.HasPrefix(line, "<<\"") {
@@ -597,6 +598,8 @@ func (c *Ctx) ValidateTrace(module string, lines [][]byte, extra TLCOpts) *Trace
 			tr.Rejected = append(tr.Rejected, t[1:])
 		case "DONE":
 			done = t[1].(int)
+		default:
+			tr.Tagged[Str(t[0])] = append(tr.Tagged[Str(t[0])], t[1:])
 		}
 	}
 	r, err := c.TLC(o)
